@@ -362,6 +362,11 @@ func runProperty(eng *Engine, prop, tier string, timeout int, findings []Finding
 	extras, bounded, notes := propertyExtras(eng, prop, tier, vdir)
 	res.Bounded = bounded
 	res.Notes = notes
+	for _, rep := range reports {
+		for _, d := range rep.Dropped {
+			res.Notes = append(res.Notes, fmt.Sprintf("%s: loop clause at %s no longer binds to the code (loops restructured) and was dropped for this run", shortFuncKey(rep.Key), d))
+		}
+	}
 	// known-finding shapes: alternative queries
 	byName := map[string][]*oblInst{}
 	for _, in := range insts {
